@@ -258,7 +258,20 @@ struct Dumper
         json prog = json::array();
         for (auto& p : d.progress) prog.push_back(json{{"guard", ex(p.guard)}, {"measure", ex(p.measure)}});
         if (!prog.empty()) j["progress"] = prog;
-        if (!d.ganttChart.empty()) { json g = json::array(); for (auto& x : d.ganttChart) g.push_back(x.name); j["gantt"] = g; }
+        if (!d.ganttChart.empty()) {
+            json g = json::array();
+            for (auto& x : d.ganttChart) g.push_back(x.name);
+            j["gantt"] = g;
+            if (trees) {       // the lines with their entries: binder frames and the two expressions of every entry (C07: scopes of the gantt binders)
+                json gl = json::array();
+                for (auto& x : d.ganttChart) {
+                    json entries = json::array();
+                    for (auto& m : x.mapping) entries.push_back(json{{"params", frame_json(m.parameters)}, {"pred", ex(m.predicate)}, {"map", ex(m.mapping)}});
+                    gl.push_back(json{{"name", x.name}, {"params", frame_json(x.parameters)}, {"entries", entries}});
+                }
+                j["gantt_lines"] = gl;
+            }
+        }
         if (!d.iodecl.empty()) j["iodecl"] = d.iodecl.size();
         return j;
     }
